@@ -48,4 +48,14 @@ uint8_t _ZNK4QMapI10QByteArrayS0_E14const_iteratorneERKS2_(char *a, char *b) { r
 /* a QByteArray of `len` (<= cap, cap a constant) bytes copied from a harness buffer */
 void vp_dig_bytes(char *out, char *buf, uint32_t len, uint32_t cap) { ASSERT(cap <= 16 && len <= cap, "vp_dig_bytes bound"); ASSUME(len <= cap); QAD *d = qb_new(len, cap);
   for (uint32_t i = 0; i < 16; i++) { if (i >= cap) break; C06_BD(d)[i] = ((uint8_t*)buf)[i]; } C06_BD(d)[len] = 0; QBD(out) = d; }
+/* Verified structure hint for QByteArray::at (inline Qt member, overridden as a class-level model for this group only): for ONE message the
+   harness built from literal pieces and symbolic pieces, the positions of the symbolic ("opaque content") bytes are registered as a bit mask.
+   at(i) on exactly that block at such a position ASSERTS that the byte really is neither '"' nor a backslash - the only two characters
+   parseMessage compares at() results with - and then returns the constant 'x', so that the closing-quote scan of parseMessage folds for symex.
+   The bytes themselves (copied by mid()/replace()) stay symbolic. Every other at() call returns the stored byte. */
+static QAD *dig_at_blk; static uint32_t dig_at_mask;
+void vp_dig_at_hint(char *ba, uint32_t mask) { dig_at_blk = QBD(ba); dig_at_mask = mask; }
+uint8_t _ZNK10QByteArray2atEi(char *self, uint32_t i) { QAD *d = QBD(self); uint8_t b = qb_bytes(d)[i];
+  if (d == dig_at_blk && i < 32 && ((dig_at_mask >> i) & 1)) { ASSERT(b != '"' && b != '\\', "at() hint: an opaque content byte is neither a quote nor a backslash"); ASSUME(b != '"' && b != '\\'); return 'x'; }
+  return b; }
 #endif
